@@ -1,3 +1,4 @@
+import errno
 import grp
 import os
 import pwd
@@ -90,6 +91,10 @@ class RealFs(RealVolumeOf, Fs):
         os.mkdir(path, mode)
 
     def move(self, path, dest):
+        if os.path.ismount(path):
+            # rename() fails on a mount point and shutil.move would then copy
+            # its contents to the trash and delete them from the volume
+            raise OSError(errno.EBUSY, "cannot trash a mount point", path)
         return fs.move(path, dest)
 
     def remove_file(self, path):
